@@ -126,6 +126,7 @@ impl Node {
     pub fn peek_stream(&self, key: &[u8]) -> Option<&Stream> {
         self.streams.get(key)
     }
+    #[allow(dead_code)]
     pub fn peek_pttl(&self, key: &[u8]) -> Option<u64> {
         match self.strings.get(key) {
             Some(e) if !self.expired(e) => e.expire_at.map(|t| t.saturating_sub(self.now_ms)),
